@@ -129,6 +129,11 @@ func callArgs(R *Renderer, c ssa.CallInstruction) []string {
 	if cc.IsInvoke() {
 		out = append(out, R.V(cc.Value))
 	}
+	if f := cc.StaticCallee(); f != nil && paramAlias[f] != nil {
+		if la := liftedArgs(f, cc.Args, R.V, liftRecv[f]); la != nil {
+			return la
+		}
+	}
 	for _, a := range cc.Args {
 		out = append(out, R.V(a))
 	}
@@ -273,16 +278,23 @@ type LockResult struct {
 	MustHold map[ssa.Instruction]map[string]byte
 	Orders   map[string]string // "classA -> classB" -> example position
 	States   int
+	ClassOf  map[string]string // mutex access path -> class
 }
 
 // analyzeLocks explores one function.
-func (L *LockInfo) analyzeLocks(fn *ssa.Function) *LockResult {
+func (L *LockInfo) analyzeLocks(fn *ssa.Function) *LockResult { return L.analyzeLocksOpt(fn, false) }
+
+// analyzeLocksAll additionally records the held set at every instruction (GUARDED-BY).
+func (L *LockInfo) analyzeLocksAll(fn *ssa.Function) *LockResult { return L.analyzeLocksOpt(fn, true) }
+
+func (L *LockInfo) analyzeLocksOpt(fn *ssa.Function, all bool) *LockResult {
 	res := &LockResult{MayHold: map[ssa.Instruction]map[string]byte{}, MustHold: map[ssa.Instruction]map[string]byte{}, Orders: map[string]string{}}
 	if len(fn.Blocks) == 0 {
 		return res
 	}
 	R := NewRenderer(fn)
 	classOf := map[string]string{}
+	res.ClassOf = classOf
 	type node struct {
 		b *ssa.BasicBlock
 		k string
@@ -389,6 +401,8 @@ func (L *LockInfo) analyzeLocks(fn *ssa.Function) *LockResult {
 		stopped := false
 		for _, in := range it.b.Instrs {
 			if _, isCall := in.(ssa.CallInstruction); isCall {
+				recordHeld(in, s)
+			} else if all {
 				recordHeld(in, s)
 			}
 			if _, isSend := in.(*ssa.Send); isSend {
